@@ -76,31 +76,45 @@ def when_any(ctx):
   # R2: direct returns of inputs
   why2 = 'a ready-but-failed input is not "the first input to succeed": returning it reports failure although another input may still succeed'
   n = 0
-  for r in [x for x in walk_no_nested(f.node) if isinstance(x, ast.Return)]:
-    if isinstance(r.value, ast.Name) and r.value.id == ret:
+  from ..util import sym_env, sym_resolve
+  seen_keys = set()
+  for ev, ex in enum_paths(ctx, f):
+    if ex[0] != 'ret':
+      continue
+    ri = [i for i, e in enumerate(ev) if e.kind == 'ret'][-1]
+    r = ev[ri].node
+    if r.value is None or (isinstance(r.value, ast.Name) and r.value.id == ret):
+      continue
+    env = sym_env(ev, ri)
+    src = r.value
+    hops = 0
+    while isinstance(src, ast.Name) and src.id in env and src.id != ret and hops < 5:
+      src = env[src.id]
+      hops += 1
+    if isinstance(src, ast.Constant) and src.value is None:
+      continue
+    if isinstance(src, ast.Name) and src.id == ret:
       continue
     n += 1
-    # value derives from a comprehension over ars filtered by successful()
-    src = r.value
+    # the value is an element of a collection of inputs filtered by successful(): a comprehension, or a list filled by a loop
     base = src.value if isinstance(src, ast.Subscript) else src
-    comp = None
+    comp = base
+    basename = None
     if isinstance(base, ast.Name):
-      for st in walk_no_nested(f.node):
-        if isinstance(st, ast.Assign) and isinstance(st.targets[0], ast.Name) and st.targets[0].id == base.id and st.lineno < r.lineno:
-          comp = st.value
-    else:
-      comp = base
+      basename = base.id
+      comp = env.get(base.id, base)
+      if not isinstance(comp, (ast.ListComp, ast.GeneratorExp, ast.Call)):
+        comp = base
     ok = False
     if isinstance(comp, (ast.ListComp, ast.GeneratorExp)) or (isinstance(comp, ast.Call) and comp.args and isinstance(comp.args[0], (ast.ListComp, ast.GeneratorExp))):
       c = comp if isinstance(comp, (ast.ListComp, ast.GeneratorExp)) else comp.args[0]
       conds = ' and '.join(U(i) for g in c.generators for i in g.ifs).replace(' ', '')
       v = U(c.generators[0].target)
       ok = U(c.generators[0].iter) == ars and ('%s.successful()' % v in conds) and 'not%s.successful()' % v not in conds
-    elif isinstance(base, ast.Name):
-      # the candidate list is filled by an explicit loop over the inputs: every append must be under successful()
+    elif basename is not None:
       apps = [(lp, c_) for lp in walk_no_nested(f.node) if isinstance(lp, ast.For) and U(lp.iter) == ars
-              for c_ in ast.walk(lp) if isinstance(c_, ast.Call) and call_attr(c_) == 'append' and U(c_.func.value) == base.id]
-      others = [c_ for c_ in walk_no_nested(f.node) if isinstance(c_, ast.Call) and call_attr(c_) in ('append', 'extend', 'insert') and U(c_.func.value) == base.id
+              for c_ in ast.walk(lp) if isinstance(c_, ast.Call) and call_attr(c_) == 'append' and U(c_.func.value) == basename]
+      others = [c_ for c_ in walk_no_nested(f.node) if isinstance(c_, ast.Call) and call_attr(c_) in ('append', 'extend', 'insert') and U(c_.func.value) == basename
                 and not any(c_ is a_ for _, a_ in apps)]
       ok = bool(apps) and not others
       for lp, c_ in apps:
@@ -113,7 +127,11 @@ def when_any(ctx):
               if not okp:
                 ok = False
         ok = ok and okp
-    ctx.ob('C17.R2', f, 'shortcut return %s' % U(r.value), ok, 'returns %s, which is not filtered by successful()' % U(r.value), why2)
+    key = U(src)
+    if key in seen_keys and ok:
+      continue
+    seen_keys.add(key)
+    ctx.ob('C17.R2', f, 'shortcut return %s' % U(src), ok, 'returns %s, which is not filtered by successful()' % U(src), why2)
   # R3
   _link_rules(ctx, f, ars, cb.name)
   tot = [st for st in walk_no_nested(f.node) if isinstance(st, ast.Assign) and U(st.value).replace(' ', '') == '[len(%s)]' % ars]
